@@ -3,7 +3,11 @@
 check of its target property, record the outcome in its meta.json (detected_by).
 usage: detect_all.py [names...]"""
 import json, os, subprocess, sys, glob
-WT="/tmp/wt-detect"; TGT="/tmp/wt-detect-target"
+# DETECT_SHARD=i/n: handle every n-th seed in its own scratch worktree (run n of these side by side)
+SH = os.environ.get("DETECT_SHARD", "0/1")
+SI, SN = [int(x) for x in SH.split("/")]
+SUF = "" if SN == 1 else "-%d" % SI
+WT="/tmp/wt-detect" + SUF; TGT="/tmp/wt-detect-target" + SUF
 def sh(cmd, **kw):
     return subprocess.run(cmd, shell=True, stdout=subprocess.PIPE, stderr=subprocess.STDOUT, text=True, **kw)
 if not os.path.isdir(WT):
@@ -11,7 +15,8 @@ if not os.path.isdir(WT):
 head = sh("git -C /repo rev-parse --short HEAD").stdout.strip()
 sh("git checkout --detach -f %s" % head, cwd=WT)
 names = sys.argv[1:] or sorted(os.path.basename(d) for d in glob.glob("/verif/seeded/C*"))
-env = dict(os.environ, VERIF_REPO=WT, VERIF_TARGET_DIR=TGT, VERIF_WORK="/tmp/wt-detect-work", VERIF_EVIDENCE_DIR="/tmp/wt-detect-ev")
+names = [n for i, n in enumerate(names) if i % SN == SI]
+env = dict(os.environ, VERIF_REPO=WT, VERIF_TARGET_DIR=TGT, VERIF_WORK="/tmp/wt-detect-work" + SUF, VERIF_EVIDENCE_DIR="/tmp/wt-detect-ev" + SUF)
 for n in names:
     d = "/verif/seeded/" + n
     prop = n.split("-")[0]
